@@ -187,3 +187,123 @@ func aModuleCopyHasTablesOfItsOwn(c *core.Ctx) {
 	}
 	c.Stat("module_container_fields", n)
 }
+
+// ---------------------------------------------------------------------------
+// whatAFunctionCountsUpItCountsDownOnEveryWayOut (C18, C07): a counter of the
+// VM that a function increments and also decrements (the nesting depth of
+// deferred calls) is state of the VM that outlives the call and the piece.  A
+// way out of the function between the increment and the decrement - the early
+// return of an error - leaves the counter one up for good: failed pieces add
+// up until the limit refuses a later piece that has done nothing wrong.  Path
+// rule over the SSA blocks: from every increment, every path to a return
+// passes the decrement or a defer of a function that decrements.
+func fieldStep(in ssa.Instruction) (recvT *types.Named, field int, up, ok bool) {
+	s, isStore := in.(*ssa.Store)
+	if !isStore {
+		return
+	}
+	fa, isFA := s.Addr.(*ssa.FieldAddr)
+	if !isFA {
+		return
+	}
+	bo, isBin := s.Val.(*ssa.BinOp)
+	if !isBin || (bo.Op != token.ADD && bo.Op != token.SUB) {
+		return
+	}
+	if k, isConst := bo.Y.(*ssa.Const); !isConst || k.Value == nil || k.Value.ExactString() != "1" {
+		return
+	}
+	ld, isLoad := bo.X.(*ssa.UnOp)
+	if !isLoad || ld.Op != token.MUL {
+		return
+	}
+	fa2, isFA2 := ld.X.(*ssa.FieldAddr)
+	if !isFA2 || fa2.Field != fa.Field || core.NamedOf(fa2.X.Type()) != core.NamedOf(fa.X.Type()) || core.NamedOf(fa.X.Type()) == nil {
+		return
+	}
+	return core.NamedOf(fa.X.Type()), fa.Field, bo.Op == token.ADD, true
+}
+
+func whatAFunctionCountsUpItCountsDownOnEveryWayOut(c *core.Ctx) {
+	p := c.P
+	vmT := core.MustType(p.Pkg("vm"), "VirtualMachine")
+	n := 0
+	for _, fn := range repoFns(p, "vm") {
+		if fn.Parent() != nil {
+			continue
+		}
+		type site struct {
+			b *ssa.BasicBlock
+			i int
+		}
+		ups := map[int][]site{}
+		downs := map[int]map[ssa.Instruction]bool{}
+		note := func(f int, in ssa.Instruction) {
+			if downs[f] == nil {
+				downs[f] = map[ssa.Instruction]bool{}
+			}
+			downs[f][in] = true
+		}
+		for _, b := range fn.Blocks {
+			for i, in := range b.Instrs {
+				if t, f, up, ok := fieldStep(in); ok && t == vmT {
+					if up {
+						ups[f] = append(ups[f], site{b, i})
+					} else {
+						note(f, in)
+					}
+				}
+				if d, ok := in.(*ssa.Defer); ok {
+					var callee *ssa.Function
+					if mc, ok := d.Call.Value.(*ssa.MakeClosure); ok {
+						callee, _ = mc.Fn.(*ssa.Function)
+					} else {
+						callee = d.Call.StaticCallee()
+					}
+					if callee != nil && core.RepoFunc(callee) {
+						for _, cb := range callee.Blocks {
+							for _, cin := range cb.Instrs {
+								if t, f, up, ok := fieldStep(cin); ok && t == vmT && !up {
+									note(f, in)
+								}
+							}
+						}
+					}
+				}
+			}
+		}
+		for f, sites := range ups {
+			if len(downs[f]) == 0 {
+				continue // counts up only: not a depth that this function takes back
+			}
+			fname := fieldNameOf(vmT, f)
+			for k, s := range sites {
+				n++
+				leak := ""
+				seen := map[*ssa.BasicBlock]bool{}
+				var walk func(b *ssa.BasicBlock, from int)
+				walk = func(b *ssa.BasicBlock, from int) {
+					for _, in := range b.Instrs[from:] {
+						if downs[f][in] {
+							return
+						}
+						if r, ok := in.(*ssa.Return); ok && leak == "" {
+							leak = p.Pos(r.Pos())
+							return
+						}
+					}
+					for _, su := range b.Succs {
+						if !seen[su] {
+							seen[su] = true
+							walk(su, 0)
+						}
+					}
+				}
+				walk(s.b, s.i+1)
+				c.Check(leak == "", core.SSAName(fn)+"|"+fname+"|counted-down-on-every-way-out|"+sprintf("%d", k+1), p.Pos(s.b.Instrs[s.i].Pos()),
+					core.SSAName(fn)+" counts vm."+fname+" up and "+ife(leak == "", "every way out counts it down again", "the return at "+leak+" is reached without counting it down: the VM keeps the level, and enough calls that leave this way make a later, blameless piece fail at the limit"))
+			}
+		}
+	}
+	c.Stat("paired_counter_increments", n)
+}
